@@ -18,7 +18,7 @@ import (
 	"go.etcd.io/bbolt/verifh/refdec"
 )
 
-const c20Rule = "files from generated histories (all page sizes, freelist persisted or not), snapshotted byte for byte DIRECTLY AFTER a generated commit N+1 (while the database is still open, so no later commit intervenes), then processed by the CLI built from the tree: `surgery freelist abandon`, abandon followed by `surgery freelist rebuild`, and `surgery revert-meta-page`. Oracle: abandon: output dumps like the source, neither meta carries a freelist pointer, and after opening it the scanned free set equals the independent decoder's unreachable set; rebuild: dump unchanged, the persisted list equals the unreachable pages minus the freelist page itself (decoder accounting clean); revert: the output opens at exactly the state committed before N+1 (incl. the initial empty state), Tx.Check is clean and the decoder's accounting of that version is clean. Always: exit status 0, SHA-256 of the source unchanged, no file other than --output created or changed in the directory. Non-trivial = versions N and N+1 differ in content and the free list is not empty. Distinct = SHA-256 of (op log, snapshot txid, command)."
+const c20Rule = "files from generated histories (all page sizes, freelist persisted or not), snapshotted byte for byte DIRECTLY AFTER a generated commit N+1 (while the database is still open, so no later commit intervenes) or directly after an Open (whose last write activity is the previous session's last commit, or the freelist-flush commit of Open itself), then processed by the CLI built from the tree: `surgery freelist abandon`, abandon followed by `surgery freelist rebuild`, and `surgery revert-meta-page`. Oracle: abandon: output dumps like the source, neither meta carries a freelist pointer, and after opening it the scanned free set equals the independent decoder's unreachable set; rebuild: dump unchanged, the persisted list equals the unreachable pages minus the freelist page itself (decoder accounting clean); revert: the output opens at exactly the state committed before N+1 (incl. the initial empty state), Tx.Check is clean and the decoder's accounting of that version is clean. Always: exit status 0, SHA-256 of the source unchanged, no file other than --output created or changed in the directory. Non-trivial = versions N and N+1 differ in content and the free list is not empty. Distinct = SHA-256 of (op log, snapshot txid, command)."
 
 func runCLI(args ...string) (int, string) {
 	cli := os.Getenv("VERIF_CLI")
@@ -205,6 +205,16 @@ func c20RunLog(log []drv.Op, snapAt int, col *collector) *drv.Violation {
 	e.SkipDumpAfter = true
 	n := 0
 	var snap *c20Snap
+	e.AfterOpen = func(e *drv.Env) *drv.Violation {
+		if snapAt < 0 && len(e.Log) == -snapAt && e.LastTxid >= 2 {
+			prev := e.Versions[e.LastTxid-1]
+			if prev == nil {
+				prev = model.New()
+			}
+			snap = &c20Snap{data: e.FileBytes(), txid: e.LastTxid, cur: e.Committed, prev: prev, nosync: e.Opts.NoFreelistSync}
+		}
+		return nil
+	}
 	e.AfterCommit = func(e *drv.Env, txid int) *drv.Violation {
 		n++
 		if n == snapAt {
@@ -255,6 +265,21 @@ func TestC20(t *testing.T) {
 			}
 			return nil
 		}
+		// the file as it is directly after an Open is also "directly after a commit" (the last commit of the
+		// previous session, or the freelist-flush commit Open performs when a no-sync file is opened in sync mode)
+		g.AfterOpen = func(e *drv.Env) *drv.Violation {
+			if e.LastTxid < 2 || len(snaps) >= 3 || rapid.IntRange(0, 1).Draw(rt, "snapopen") != 0 {
+				return nil
+			}
+			prev := e.Versions[e.LastTxid-1]
+			if prev == nil {
+				prev = model.New()
+			}
+			snaps = append(snaps, c20Snap{data: e.FileBytes(), txid: e.LastTxid, cur: e.Committed, prev: prev, nosync: e.Opts.NoFreelistSync})
+			snapIdx = append(snapIdx, -len(e.Log))
+			return nil
+		}
+		cfg.ReopenWeight = 14
 		failg := func(v *drv.Violation) {
 			log := g.Log
 			g.Cleanup()
